@@ -26,6 +26,19 @@ def put(tag, body, s):
     if b not in s:
         return s
     return s[:s.index(b) + len(b)] + "\n" + body + "\n" + s[s.index(e):]
-s = put("findings", findings, s); s = put("seeded", seeded, s)
+man = json.load(open("/verif/MANIFEST.json"))
+asb = []
+for c in man["checks"]:
+    pid = c["property_id"]
+    ev = {}
+    try:
+        ev = json.load(open(f"/verif/evidence/{pid}.json"))["coverage"]
+    except Exception:
+        pass
+    asb.append(f"**{pid}** — technique: {c.get('technique','')}.  \n*Claim:* {c['level_claimed']['text']}  \n*Trusted / partial:* {c['level_note']}  \n"
+               f"*Last evidence:* {ev.get('obligations','?')} theorems discharged ({ev.get('closed_theorems','?')} closed under the global context; axioms: "
+               f"{', '.join(ev.get('axioms_print_assumptions', [])) or 'none'}), {ev.get('evaluations','?')} evaluated cases "
+               f"({ev.get('distinct_nontrivial','?')} distinct non-trivial).\n")
+s = put("findings", findings, s); s = put("seeded", seeded, s); s = put("asbuilt", "\n".join(asb), s)
 open(D, "w").write(s)
 print("DESIGN.md tables regenerated:", len(k), "findings,", len(glob.glob('/verif/seeded/*')), "seeded changes")
